@@ -104,6 +104,11 @@ def _pair(draw):
         big = draw(st.sampled_from([2e4, 1e5, 1e6, 5e5]))
         L = [[{k: -v for k, v in r[0].items()}, -(r[1] + gap)], [dict(r[0]), r[1] + gap + 1.0],
              [{draw(st.sampled_from(pool)): draw(st.sampled_from([1.0, -1.0]))}, big]]
+        if draw(st.booleans()):
+            # ... or on the right: a loose, heavily scaled copy of the violated row (implied by the left side)
+            L = L[:2]
+            kf = big / 4.0
+            R = R + [[{k: v * kf for k, v in r[0].items()}, (r[1] + gap + 3.0) * kf]]
     elif cls == "unrelated":
         R = draw(gens.termlist_s(pool, w, 1, 4))
     elif cls == "unbounded":
@@ -148,7 +153,7 @@ def _case(draw):
         cls, L, R, pool, w = draw(_pair())
         case = {"kind": "tl", "cls": cls, "L": L, "R": R, "via": draw(st.sampled_from(["refines", "<="]))}
         if draw(st.integers(0, 3)) == 0:
-            case["prime"] = draw(st.sampled_from(["left-looser", "right-tighter"]))
+            case["prime"] = draw(st.sampled_from(["left-looser", "right-tighter", "minus-one-two", "minus-one-two"]))
         return case
     if kind == "iface":
         ins, outs = ["a", "b"], ["x"]
@@ -245,7 +250,13 @@ def run_case(case):
             # influence the judged query
             def nudge(ts, up):
                 return [[dict(t[0]), t[1] + (3e-5 * abs(t[1]) + 3e-5) * (1 if up else -1)] for t in ts]
-            if case["prime"] == "left-looser":
+            def swap12(ts):
+                f = lambda x: -2.0 if x == -1 else (-1.0 if x == -2 else x)  # noqa: E731  (hash(-1.0) == hash(-2.0) in CPython)
+                return [[{k: f(v) for k, v in t[0].items()}, f(t[1])] for t in ts]
+            if case["prime"] == "minus-one-two":
+                env.call("termlist.refines", env.TL(swap12(L)).refines, tr)
+                env.call("termlist.refines", tl.refines, env.TL(swap12(R)))
+            elif case["prime"] == "left-looser":
                 env.call("termlist.refines", env.TL(nudge(L, True)).refines, tr)
             else:
                 env.call("termlist.refines", tl.refines, env.TL(nudge(R, False)))
